@@ -65,3 +65,44 @@ def sample(rng, xs, n):
     if len(xs) <= n:
         return xs
     return rng.sample(xs, n)
+
+
+def gen_programs(rep, wd, name, palette, nlines, maxstmts, maxdepth=2, maxpergroup=2, simulate=0, depth=40, seed=0):
+    """Enumerate (simulate=0) or sample the behaviours of spec/GenProg.tla for a statement palette.
+    palette: [{"text":..., "open":[..], "close":[..], "last":bool, "grp":int}]; returns lists of lines of palette indices (0-based)."""
+    import json
+    import re
+    pal = os.path.join(wd, "palette_%s.json" % name)
+    with open(pal, "w") as f:
+        json.dump([{"open": p.get("open", []), "close": p.get("close", []), "last": bool(p.get("last", False)),
+                    "grp": int(p.get("grp", 0))} for p in palette], f)
+    cfg = os.path.join(wd, "GenProg_%s.cfg" % name)
+    with open(cfg, "w") as f:
+        f.write("CONSTANTS\n  NLines = %d\n  MaxStmts = %d\n  MaxDepth = %d\n  MaxPerGroup = %d\n" % (nlines, maxstmts, maxdepth, maxpergroup))
+        f.write("SPECIFICATION Spec\nINVARIANT NestedOK\nINVARIANT DoneBalanced\n")
+        if simulate:
+            f.write("INVARIANT Emit\n")
+        f.write("CHECK_DEADLOCK FALSE\n")
+    out = []
+    if simulate:
+        r = common.run_tlc("GenProg", cfg=cfg, wd=wd, env={"PALETTE": pal}, dump=False, workers=4,
+                           simulate="num=%d" % simulate, extra=["-depth", str(depth), "-seed", str(seed + 1)])
+        rep.cov["states"] += max(r.distinct, r.generated)
+        rep.cov["transitions"] += r.generated
+        seen = set()
+        for m in re.finditer(r'"GEN:(\[.*?\])"', r.out):
+            s = m.group(1)
+            if s not in seen:
+                seen.add(s)
+                out.append([[k - 1 for k in line] for line in json.loads(s)])
+    else:
+        r = rep.tlc(common.run_tlc("GenProg", cfg=cfg, wd=wd, env={"PALETTE": pal}))
+        for st in r.states:
+            if st.get("done") == "TRUE":
+                out.append([[k - 1 for k in line] for line in common.tlaval(st["lines"])])
+        out.sort()
+    return out
+
+
+def render_program(palette, lines, first=10, step=10):
+    return ["%d %s" % (first + step * i, ":".join(palette[k]["text"] for k in ln)) for i, ln in enumerate(lines)]
